@@ -3,11 +3,8 @@ From SC Require Import Lib.Prelude Lib.Int Lib.Host Model.Math Model.Fungible Mo
   Proofs.FungibleBasics Proofs.FungibleExec Proofs.FungibleAllow Proofs.FungibleInv Proofs.FungibleObsFacts
   Run.C01.
 
-Lemma nodupb_NoDup l : nodupb l = true -> NoDup l.
-Proof.
-  induction l as [|a r IH]; cbn; [constructor|]. intros H. apply andb_true_iff in H. destruct H as [H1 H2].
-  constructor; auto. intros Hi. apply mem_In in Hi. rewrite Hi in H1. discriminate.
-Qed.
+Lemma call_addrs_incl cl a : In a (call_addrs cl) -> In a (call_addrs_all cl).
+Proof. destruct cl; cbn; tauto. Qed.
 
 (* the events of a successful call describe exactly the movement the monitor expects *)
 Lemma exec_expected c s cl s' v evs (prev : obs) :
@@ -68,6 +65,7 @@ Section Run.
 
   (* relation between the monitor's memory and the model state *)
   Record J (m : m01) (s : state) : Prop := {
+    j_prev : m_prev m = observe c univ s;
     j_sup : o_supply (m_prev m) = supply (tk s);
     j_bal : forall a, In a univ -> bal_of (m_prev m) a = balance (tk s) a;
     j_allow : forall p, In p (pairs univ) -> allow_of (m_prev m) p = allow_obs s p;
@@ -78,11 +76,11 @@ Section Run.
     j_supp : forall a, ~ In a univ -> balance (tk s) a = 0
   }.
 
-  Lemma J_init start : J (m01_init start univ) (init start).
+  Lemma J_init start : J (m01_init (observe c univ (init start))) (init start).
   Proof.
-    constructor; cbn; auto.
-    - intros a H. unfold bal_of, obs0. cbn. rewrite (getd_map_in (fun _ => 0)); auto.
-    - intros p _. rewrite allow_obs_init. reflexivity.
+    constructor; cbn [m_prev m_led m_sup m01_init]; auto.
+    - intros a H. apply bal_of_observe. exact H.
+    - intros p H. apply allow_of_observe. exact H.
     - apply core_inv_tok0.
   Qed.
 
@@ -90,19 +88,20 @@ Section Run.
   Proof. intros H. apply forallb_forall. exact H. Qed.
 
   Lemma c01_item_model m s cl :
-    J m s -> forallb (fun a => mem a univ) (call_addrs cl) = true ->
+    J m s -> forallb (fun a => mem a univ) (call_addrs_all cl) = true ->
     let '(s', out, evs) := step c s cl in
     exists m', c01_item univ m (cl, out, evs, observe c univ s') = (true, m') /\ J m' s'.
   Proof.
-    intros Jm Wc. destruct Jm as [J1 J2 J3 J4 J5 JX J6 J7].
+    intros Jm Wc. destruct Jm as [JP J1 J2 J3 J4 J5 JX J6 J7].
     assert (Wc' : forall a, In a (call_addrs cl) -> In a univ).
-    { intros a Ha. rewrite forallb_forall in Wc. apply mem_In. apply Wc. exact Ha. }
-    unfold step. destruct (exec c s cl) as [[[s1 v] evs]|] eqn:E.
+    { intros a Ha. rewrite forallb_forall in Wc. apply mem_In. apply Wc. apply call_addrs_incl. exact Ha. }
+    pose proof (common_ok_model c univ s cl W J6 Wc) as CM. rewrite <- JP in CM.
+    unfold step in *. destruct (exec c s cl) as [[[s1 v] evs]|] eqn:E.
     - (* the call succeeds *)
       destruct (exec_balances _ _ _ _ _ _ W J6 E) as (Len & M & C1).
       assert (EX : evs_move evs = expected_move (m_prev m) cl v).
       { apply (exec_expected _ _ _ _ _ _ _ E). intros old new ->. apply J2. apply Wc'. cbn. auto. }
-      rewrite (observe_w_hist c univ s1).
+      rewrite (observe_w_hist c univ s1) in *.
       destruct (expected_move (m_prev m) cl v) as [[f t] amt] eqn:XM.
       rewrite EX in M. destruct M as (Pa & Mb & Ms).
       assert (SUPP : forall a, ~ In a univ -> balance (tk s1) a = 0).
@@ -118,7 +117,13 @@ Section Run.
           rewrite getd_acredit. rewrite Mb, Ms, J5. split; [|reflexivity].
           apply ocredit_at. rewrite getd_acredit. apply ocredit_at. apply J4. }
       eexists. split.
-      + unfold c01_item. cbn [m_prev m_led m_sup]. rewrite XM.
+      + unfold c01_item. cbn [m_prev m_led m_sup]. rewrite XM, CM.
+        replace (forallb (ev_ok univ) evs) with true.
+        2:{ symmetry. destruct evs as [|e [|e2 r]]; cbn [forallb length] in *; [reflexivity| |lia].
+            cbn in EX. unfold ev_ok. rewrite EX. rewrite andb_true_r.
+            assert (Q : forall o, (o = f \/ o = t) -> match o with Some a => mem a univ | None => true end = true).
+            { intros [a|] Ho; auto. apply mem_In. apply Wc'. eapply expected_move_addrs; eauto. destruct Ho; subst; auto. }
+            rewrite (Q f), (Q t) by auto. apply Z.leb_le in Pa. rewrite Pa. reflexivity. }
         replace (sum_over (bal_of (observe c univ s1)) univ =? o_supply (observe c univ s1)) with true.
         2:{ symmetry. apply Z.eqb_eq. cbn [o_supply observe].
             rewrite (sum_over_ext _ (balance (tk s1))) by (intros; apply bal_of_observe; auto).
@@ -135,7 +140,6 @@ Section Run.
         2:{ symmetry. apply forallb_univ. intros a Ha. apply Z.eqb_eq. rewrite bal_of_observe by auto. apply LED. }
         replace (snd (fold_left led_apply evs (m_led m, m_sup m)) =? o_supply (observe c univ s1)) with true.
         2:{ symmetry. apply Z.eqb_eq. cbn [o_supply observe]. apply (LED 0%N). }
-        rewrite (advance_keeps_extras_model c univ s cl s1 v evs (m_prev m) E JX).
         cbn. reflexivity.
       + constructor; cbn [m_prev m_led m_sup tk w_hist]; auto.
         * intros a Ha. apply bal_of_observe. exact Ha.
@@ -144,7 +148,7 @@ Section Run.
         * apply (LED 0%N).
     - (* the call fails: nothing changes *)
       eexists. split.
-      + unfold c01_item. cbn [m_prev m_led m_sup fold_left fst snd].
+      + unfold c01_item. cbn [m_prev m_led m_sup fold_left fst snd forallb]. rewrite CM.
         replace (sum_over (bal_of (observe c univ s)) univ =? o_supply (observe c univ s)) with true.
         2:{ symmetry. apply Z.eqb_eq. cbn [o_supply observe].
             rewrite (sum_over_ext _ (balance (tk s))) by (intros; apply bal_of_observe; auto).
@@ -160,7 +164,6 @@ Section Run.
         2:{ symmetry. apply forallb_univ. intros a Ha. apply Z.eqb_eq. rewrite bal_of_observe by auto. apply J4. }
         replace (m_sup m =? o_supply (observe c univ s)) with true.
         2:{ symmetry. apply Z.eqb_eq. cbn [o_supply observe]. exact J5. }
-        rewrite advance_keeps_extras_fail.
         cbn. reflexivity.
       + constructor; cbn [m_prev m_led m_sup]; auto.
         * intros a Ha. apply bal_of_observe. exact Ha.
@@ -168,7 +171,7 @@ Section Run.
   Qed.
 
   Lemma c01_from_model cs : forall m s i,
-    J m s -> forallb (fun cl => forallb (fun a => mem a univ) (call_addrs cl)) cs = true ->
+    J m s -> forallb (fun cl => forallb (fun a => mem a univ) (call_addrs_all cl)) cs = true ->
     c01_from univ m (model_items c univ s cs) i = 0%N.
   Proof.
     induction cs as [|cl r IH]; intros m s i Jm Wf; cbn [model_items c01_from]; auto.
@@ -186,8 +189,9 @@ Theorem check_accepts_model : forall c univ start cs,
   check (model_trace c univ start cs) = (0%N, 0%N, 0%N).
 Proof.
   intros c univ start cs Wc Wf. unfold check. rewrite diff_model.
-  unfold wf_calls in Wf. apply andb_true_iff in Wf. destruct Wf as [Wn Wa].
-  unfold c01_monitor, model_trace. cbn [t_univ t_start t_items].
+  unfold wf_calls, wf_calls_all in Wf. apply andb_true_iff in Wf. destruct Wf as [Wn Wa].
+  unfold c01_monitor, model_trace. cbn [t_univ t_start t_items t_init].
+  rewrite (genesis_observe c univ start Wn).
   rewrite (c01_from_model c univ); auto.
   - unfold wf_host. apply Z.leb_le. exact Wc.
   - apply nodupb_NoDup. exact Wn.
